@@ -156,6 +156,8 @@ def build(desc, symbolic=True):
         return pg.Dict(d) if symbolic else d
     if k == 'tuple':
         return tuple(build(x, symbolic) for x in desc[1])
+    if k == 'oneof':
+        return pg.oneof(list(desc[1]))
     if k == 'leaf':
         return Leaf(**desc[1])
     if k == 'node':
